@@ -72,6 +72,21 @@ def find_markers(isa: str, post: dict) -> List[dict]:
     return out
 
 
+def slim(st: dict) -> dict:
+    """The part of the projection that the C07 clauses read."""
+    return {
+        "secs": [{
+            "name": sec["name"], "bytes": sec["bytes"],
+            "blocks": [{"u": b["u"], "k": b["k"], "p": b["p"], "n": b["n"],
+                        "units": [{"o": un["o"], "n": un["n"], "k": un["k"]} for un in b["units"]],
+                        "fn": b["fn"], "ent": b["ent"]} for b in sec["blocks"]],
+        } for sec in st["secs"]],
+        "edges": [{"s": e["s"], "t": e["t"], "ty": e["ty"]} for e in st["edges"]],
+        "fns": [{"name": f["name"]} for f in st["fns"]],
+        "entry": st["entry"],
+    }
+
+
 def pattern_obj(p: dict):
     """The tiny pattern language of Scopes.tla -> what the API takes."""
     k, n = p["k"], p["n"]
@@ -177,10 +192,9 @@ def run_case(case: dict) -> dict:
             traceback.print_exc()
     post = proj.project()
     return {
-        "id": case["id"], "isa": isa, "pre": pre, "regs": regs, "invs": invs,
+        "id": case["id"], "isa": isa, "pre": slim(pre), "regs": regs, "invs": invs,
         "markers": find_markers(isa, post),
-        "postsecs": [{"name": s["name"], "size": s["size"], "bytes": s["bytes"]}
-                     for s in post["secs"]],
+        "postsecs": [{"name": s["name"], "bytes": s["bytes"]} for s in post["secs"]],
         "exc": exc, "stage": state["stage"], "npass": len(plan),
     }
 
